@@ -143,3 +143,41 @@ func DescribeGoroutines(gs []Goroutine) string {
 	}
 	return sb.String()
 }
+
+// NoStarve wraps the actions of a rapid T.Repeat state machine. rapid draws an action, and when the action calls
+// t.Skip (not enabled in the current state) draws again — but gives up after 100 consecutive skipped draws with a
+// stopTest panic ("can't find a valid (non-skipped) action"), which would unwind a synctest bubble that still holds
+// parked goroutines. In states where only a small share of the action weights is enabled that is a matter of luck over
+// millions of steps. The wrapper lets skips through until 60 in a row were seen and from then on turns a skip into a
+// completed no-op action (idle, may be nil, runs instead), so the run always continues.
+func NoStarve[T any](acts map[string]func(T), idle func()) map[string]func(T) {
+	streak := 0
+	out := make(map[string]func(T), len(acts))
+	for name, f := range acts {
+		if name == "" { // the invariant action
+			out[name] = f
+			continue
+		}
+		out[name] = func(t T) {
+			defer func() {
+				r := recover()
+				if r == nil {
+					streak = 0
+					return
+				}
+				if fmt.Sprintf("%T", r) == "rapid.invalidData" {
+					if streak++; streak >= 60 {
+						streak = 0
+						if idle != nil {
+							idle()
+						}
+						return
+					}
+				}
+				panic(r)
+			}()
+			f(t)
+		}
+	}
+	return out
+}
